@@ -35,8 +35,9 @@ def gen(rng, passes):
         if cb:
             L += [f"def on_{i}():", f"    mon.write(\"click:{i}\")", ""]
     shared = nb == 2 and "def on_0():" in L and "def on_1():" in L and rng.random() < 0.4
+    tied = nb == 2 and rng.random() < 0.25     # two Button objects wired to ONE pin (two handlers for one physical key)
     for i in range(nb):
-        pin = 2 + i
+        pin = 2 + (0 if tied else i)
         cb = f"def on_{i}():" in L
         form = rng.choice(["pos", "kw", "var", "expr"])
         pin_src = str(pin)
@@ -64,11 +65,19 @@ def gen(rng, passes):
             sig = [1] + [1 if rng.random() < 0.6 else 0 for _ in range(n - 1)]
         else:
             sig = [0] * n
-        if i == 1 and rng.random() < (0.7 if shared else 0.25):
+        if i == 1 and (tied or rng.random() < (0.7 if shared else 0.25)):
             # both buttons change in the same passes (simultaneous edges)
             sig = list(info["buttons"][0]["sig"])
-        tapes["D"][str(pin)] = sig
-        info["buttons"].append({"name": f"btn{i}", "pin": pin, "cb": cb, "sig": sig, "idx": i, "handler": h if cb else None})
+        if tied:
+            # every Button object samples the pin itself: one read per object at start-up and per pass
+            tapes["D"][str(pin)] = [v for v in info["buttons"][0]["sig"] for _ in (0, 1)] if i == 1 else list(sig)
+        else:
+            tapes["D"][str(pin)] = sig
+        info["buttons"].append({"name": f"btn{i}", "pin": pin, "cb": cb, "sig": sig, "idx": i, "handler": h if cb else None, "nshare": 2 if tied else 1})
+        if rng.random() < 0.3:
+            # the cached sample read through a user helper function (defined after the Button it reads)
+            L += [f"def peek{i}():", f"    return btn{i}.is_pressed()", ""]
+            info["buttons"][-1]["peek"] = True
     npot = rng.choice([0, 1, 1])
     for i in range(npot):
         apin = rng.choice([0, 1, 3])
@@ -132,6 +141,10 @@ def gen(rng, passes):
         for _ in range(rng.choice([0, 1, 1, 2])):
             body.append(f"mon.write(\"@B:{b['name']}\")")
             body.append(f"mon.write({b['name']}.is_pressed())")
+        if b.get("peek"):
+            for _ in range(rng.choice([1, 2])):
+                body.append(f"mon.write(\"@B:{b['name']}\")")
+                body.append(f"mon.write(peek{b['idx']}())")
         if rng.random() < 0.3:
             body.append(f"if {b['name']}.is_pressed():")
             body.append(f"    mon.write(\"held:{b['idx']}\")")
@@ -229,12 +242,13 @@ def monitor(events, info, passes):
                 elif pending_print:
                     prints.setdefault(cur_pass, []).append(text)
                     pending_print = False
-        if dr.get(-1, 0) != 1:
-            problems.append(("button-startup-sample", f"{b['name']}: {dr.get(-1, 0)} digitalRead in setup(), expected exactly 1 start-up sample"))
+        ns = b.get("nshare", 1)   # Button objects on this pin: each takes its own single sample
+        if dr.get(-1, 0) != ns:
+            problems.append(("button-startup-sample", f"{b['name']}: {dr.get(-1, 0)} digitalRead in setup(), expected exactly {ns} start-up sample(s) ({ns} Button object(s) on pin {pin})"))
         for k in range(passes):
             counts["button_passes"] += 1
-            if dr.get(k, 0) != 1:
-                problems.append(("button-sample-count", f"{b['name']}: {dr.get(k, 0)} digitalRead of pin {pin} in pass {k}, expected exactly 1"))
+            if dr.get(k, 0) != ns:
+                problems.append(("button-sample-count", f"{b['name']}: {dr.get(k, 0)} digitalRead of pin {pin} in pass {k}, expected exactly {ns}"))
             rising = bool(sample(k)) and not bool(sample(k - 1))
             want = 1 if (rising and b["cb"]) else 0
             sharing = [o for o in info["buttons"] if o.get("handler") is not None and o.get("handler") == b.get("handler")]
